@@ -5,8 +5,17 @@ checks are meant to be used.  With --jobs=N, N scratch worktrees of /repo (under
 end) are used in parallel, each check running with VERIF_REPO pointing at its worktree."""
 import json, os, subprocess, sys, glob
 
-def sh(cmd, **kw):
-    return subprocess.run(cmd, shell=True, stdout=subprocess.PIPE, stderr=subprocess.STDOUT, text=True, **kw)
+def sh(cmd, timeout=None, **kw):
+    # own process group, so that a check that overruns is killed together with its children
+    import signal
+    p = subprocess.Popen(cmd, shell=True, stdout=subprocess.PIPE, stderr=subprocess.STDOUT, text=True, start_new_session=True, **kw)
+    try:
+        out, _ = p.communicate(timeout=timeout)
+    except subprocess.TimeoutExpired:
+        os.killpg(p.pid, signal.SIGKILL)
+        out, _ = p.communicate()
+        return subprocess.CompletedProcess(cmd, 124, (out or "") + "\nTIMEOUT after %s s" % timeout, None)
+    return subprocess.CompletedProcess(cmd, p.returncode, out, None)
 
 def main():
     args = [a for a in sys.argv[1:] if not a.startswith("--")]
